@@ -158,16 +158,16 @@ def Ctx.flowFlag (cx : Ctx) : String :=
   | some l => l.intr
   | none => cx.nsp.retName
 
+/-- `PendingAugAssign._op_dict`: the function of the `operator` module that performs `a op= b` -/
 def augOpName : BinOpK → String
-  | .add => "__iadd__" | .bitAnd => "__iand__" | .floorDiv => "__ifloordiv__" | .lShift => "__ilshift__"
-  | .mod => "__imod__" | .mult => "__imul__" | .matMult => "__imatmul__" | .bitOr => "__ior__"
-  | .pow => "__ipow__" | .rShift => "__irshift__" | .sub => "__isub__" | .div => "__itruediv__"
-  | .bitXor => "__ixor__"
+  | .add => "iadd" | .bitAnd => "iand" | .floorDiv => "ifloordiv" | .lShift => "ilshift"
+  | .mod => "imod" | .mult => "imul" | .matMult => "imatmul" | .bitOr => "ior"
+  | .pow => "ipow" | .rShift => "irshift" | .sub => "isub" | .div => "itruediv"
+  | .bitXor => "ixor"
 
-/-- `_aug_assign_expr` -/
-def augAssignExpr (target : Expr) (op : BinOpK) (value fallback : Expr) : Expr :=
-  .ifExp (.call (.name "hasattr") [target, Expr.str (augOpName op)] [])
-    (.call (.attribute target (augOpName op)) [value] []) fallback
+/-- `_aug_assign_expr`: `__import__('operator').i<op>(target, value)` -/
+def augAssignExpr (target : Expr) (op : BinOpK) (value : Expr) : Expr :=
+  .call (.attribute (.call (.name "__import__") [Expr.str "operator"] []) (augOpName op)) [target, value] []
 
 /-! ### assignment targets (`PendingAssign.assign_auto`) -/
 
@@ -235,13 +235,13 @@ def lowerAugAssign (n : Nsp) (target : Expr) (op : BinOpK) (value : Expr) (st : 
   match target with
   | .name id =>
       let t ← n.getLoad [] id
-      pure ([← n.getAssign id (augAssignExpr t op v (.binOp t op v))], st)
+      pure ([← n.getAssign id (augAssignExpr t op v)], st)
   | .subscript tv ts =>
       let (tmpSlice, st) := st.fresh "sllice"
       let (tmpObj, st) := st.fresh "augobj"
       let parent ← transf n [] tv
       let sl := convertIndex (← transf n [] ts)
-      let body := augAssignExpr (.name tmpTarget) op v (.namedExpr tmpTarget (.binOp (.name tmpTarget) op v))
+      let body := augAssignExpr (.name tmpTarget) op v
       pure ([.namedExpr tmpObj parent,
              .namedExpr tmpSlice sl,
              .namedExpr tmpTarget (.subscript (.name tmpObj) (.name tmpSlice)),
@@ -249,7 +249,7 @@ def lowerAugAssign (n : Nsp) (target : Expr) (op : BinOpK) (value : Expr) (st : 
   | .attribute tv a =>
       let (tmpObj, st) := st.fresh "augobj"
       let parent ← transf n [] tv
-      let body := augAssignExpr (.name tmpTarget) op v (.namedExpr tmpTarget (.binOp (.name tmpTarget) op v))
+      let body := augAssignExpr (.name tmpTarget) op v
       pure ([.namedExpr tmpObj parent,
              .namedExpr tmpTarget (.attribute (.name tmpObj) a),
              .call (.name "setattr") [.name tmpObj, Expr.str a, body] []], st)
